@@ -126,6 +126,8 @@ def _path_name(p):
             return 'value'
         if p[0] == 'elem':
             return _path_name(p[1]) + '[i]'
+        if p[0] == 'cstr':
+            return _path_name(p[1]) + '.c_str()'
         if p[0] in ('local', 'rvar') and len(p) >= 3:
             return str(p[2])
         if p[0] == 'lit':
